@@ -37,6 +37,60 @@ fn op_from(v: &Value) -> Op {
   }
 }
 
+/// raw tree-sitter reference used only to ATTRIBUTE a divergence: the same history replayed
+/// through tree-sitter directly with an InputEdit computed independently by the harness.
+struct Raw {
+  parser: tree_sitter::Parser,
+  tree: tree_sitter::Tree,
+}
+type RawDump = Vec<(u16, bool, usize, usize, usize)>;
+fn raw_point(text: &[u8], off: usize) -> tree_sitter::Point {
+  let row = text[..off].iter().filter(|b| **b == b'\n').count();
+  let col = off - text[..off].iter().rposition(|b| *b == b'\n').map(|i| i + 1).unwrap_or(0);
+  tree_sitter::Point::new(row as u32, col as u32)
+}
+fn raw_dump_node(n: &tree_sitter::Node, out: &mut RawDump) {
+  out.push((n.kind_id(), n.is_named(), n.start_byte() as usize, n.end_byte() as usize, n.child_count() as usize));
+  for i in 0..n.child_count() {
+    if let Some(c) = n.child(i) {
+      raw_dump_node(&c, out);
+    }
+  }
+}
+impl Raw {
+  fn new(lang: SupportLang, src: &str) -> Option<Raw> {
+    let mut parser = tree_sitter::Parser::new().ok()?;
+    parser.set_language(&lang.get_ts_language()).ok()?;
+    let tree = parser.parse(src.as_bytes(), None).ok()??;
+    Some(Raw { parser, tree })
+  }
+  fn edit(&mut self, before: &str, pos: usize, del: usize, ins: &str, after: &str) -> Option<()> {
+    let ie = tree_sitter::InputEdit::new(
+      pos as u32,
+      (pos + del) as u32,
+      (pos + ins.len()) as u32,
+      &raw_point(before.as_bytes(), pos),
+      &raw_point(before.as_bytes(), pos + del),
+      &raw_point(after.as_bytes(), pos + ins.len()),
+    );
+    self.tree.edit(&ie);
+    self.tree = self.parser.parse(after.as_bytes(), Some(&self.tree)).ok()??;
+    Some(())
+  }
+  fn dump(&self) -> RawDump {
+    let mut out = vec![];
+    raw_dump_node(&self.tree.root_node(), &mut out);
+    out
+  }
+  fn fresh_dump(&mut self, text: &str) -> Option<RawDump> {
+    self.parser.reset();
+    let t = self.parser.parse(text.as_bytes(), None).ok()??;
+    let mut out = vec![];
+    raw_dump_node(&t.root_node(), &mut out);
+    Some(out)
+  }
+}
+
 type Dump = Vec<(u16, bool, usize, usize, usize, usize, usize, usize, usize)>;
 
 fn dump(root: &N) -> Dump {
@@ -140,7 +194,7 @@ fn gen_op(ag: &Ag, rng: &mut Rng) -> Option<Op> {
 }
 
 /// apply one op; returns the text the harness expects afterwards (own splice), or None if the op did nothing
-fn apply(ag: &mut Ag, op: &Op) -> Result<Option<String>, String> {
+fn apply(ag: &mut Ag, op: &Op) -> Result<Option<(String, usize, usize, String)>, String> {
   let before = ag.source().to_string();
   match op {
     Op::Edit { pos, del, ins } => {
@@ -150,7 +204,7 @@ fn apply(ag: &mut Ag, op: &Op) -> Result<Option<String>, String> {
       let want = format!("{}{}{}", &before[..*pos], ins, &before[pos + del..]);
       ag.edit(Edit { position: *pos, deleted_length: *del, inserted_text: ins.as_bytes().to_vec() })
         .map_err(|e| format!("{e}"))?;
-      Ok(Some(want))
+      Ok(Some((want, *pos, *del, ins.clone())))
     }
     Op::Replace { pattern, fix } => {
       // the expected text: first match of the pattern (library find) replaced by the template expansion
@@ -172,7 +226,7 @@ fn apply(ag: &mut Ag, op: &Op) -> Result<Option<String>, String> {
       if !did {
         return Err("replace() returned false although a match exists".into());
       }
-      Ok(Some(want))
+      Ok(Some((want, edit.position, edit.deleted_length, String::from_utf8_lossy(&edit.inserted_text).to_string())))
     }
   }
 }
@@ -196,19 +250,28 @@ pub fn run_history(lang_name: &str, name: &str, src: &str, ops: &[Op], rep: &mut
   let res = guarded(|| {
     let mut out: Vec<(String, String, usize)> = vec![];
     let mut ag = lang.ast_grep(src);
+    let mut raw = Raw::new(lang, src);
     let mut len_changed_before_node = false;
     for (i, op) in ops.iter().enumerate() {
       let before_len = ag.source().len();
+      let before_text = ag.source().to_string();
       let want = match apply(&mut ag, op) {
-        Ok(Some(w)) => w,
+        Ok(Some((w, pos, del, ins))) => {
+          if let Some(r) = raw.as_mut() {
+            if r.edit(&before_text, pos, del, &ins, &w).is_none() {
+              raw = None;
+            }
+          }
+          w
+        }
         Ok(None) => continue,
         Err(e) => {
-          out.push(("C10/api-error".into(), e, i + 1));
+          out.push(("C10/api-error".to_string(), e, i + 1));
           break;
         }
       };
       if ag.source() != want {
-        out.push(("C10/text".into(), "source() is not the spliced text".into(), i + 1));
+        out.push(("C10/text".to_string(), "source() is not the spliced text".into(), i + 1));
         break;
       }
       if want.len() != before_len {
@@ -226,8 +289,25 @@ pub fn run_history(lang_name: &str, name: &str, src: &str, ops: &[Op], rep: &mut
       }
       if a != b {
         let has_err = ag.root().dfs().any(|n| n.is_error());
-        let sig = if has_err { "C10/tree/error-node-in-edited-tree" } else { "C10/tree/shape" };
-        out.push((sig.into(), format!("tree after step {} differs from a fresh parse: {}", i + 1, first_diff(&a, &b)), i + 1));
+        // attribution: does tree-sitter itself, fed an independently computed InputEdit, produce
+        // exactly ast-grep's tree and also disagree with its own fresh parse?
+        let proj: RawDump = a.iter().map(|x| (x.0, x.1, x.2, x.3, x.8)).collect();
+        let ts_fault = match raw.as_mut() {
+          Some(r) => {
+            let inc = r.dump();
+            let fresh = r.fresh_dump(&want);
+            inc == proj && fresh.map(|f| f != inc).unwrap_or(false)
+          }
+          None => false,
+        };
+        let sig = if ts_fault {
+          format!("C10/tree-sitter-incremental-reparse/lang={lang_name}")
+        } else if has_err {
+          "C10/tree/error-node-in-edited-tree".to_string()
+        } else {
+          "C10/tree/shape".to_string()
+        };
+        out.push((sig, format!("tree after step {} differs from a fresh parse: {}", i + 1, first_diff(&a, &b)), i + 1));
         break;
       }
       // later searches see what a fresh parse sees: probe with kinds of a few nodes
@@ -244,7 +324,7 @@ pub fn run_history(lang_name: &str, name: &str, src: &str, ops: &[Op], rep: &mut
           let x: Vec<_> = ag.root().find_all(&pat).map(|m| m.range()).collect();
           let y: Vec<_> = fresh.root().find_all(&pat).map(|m| m.range()).collect();
           if x != y {
-            out.push(("C10/search".into(), format!("find_all({p:?}) differs between edited and fresh document"), i + 1));
+            out.push(("C10/search".to_string(), format!("find_all({p:?}) differs between edited and fresh document"), i + 1));
           }
         }
       }
